@@ -36,6 +36,19 @@ NOTES = {
               "did not return on a range of 2^63 blocks",
               "harness/c17 runs every case under a 10 s watchdog and observes a call that does not return as the error `timeout` "
               "(also a maximality violation on the FEP cases, as the seed intended)"),
+    "C01_5": ("MISSED at first run (the bridge was always deployed with ether as gas token)",
+              "harness/evm: every second random case deploys the bridge with a custom gas token (initialize(gasTokenAddress != 0, "
+              "metadata)); native bridgeAsset deposits then carry the gas token's origin in the event"),
+    "C01_6": ("MISSED at first run (longest history had about 250 deposits; the list GetBridges returns was compared with the model only)",
+              "harness/bridge: one history of 552 deposits in blocks of 3, 6, 4, 6, 5 deposits (a batch boundary never falls on a block "
+              "boundary for the usual batch sizes); spec_c01 now also requires GetBridges(0, last) to list exactly the processed deposits, "
+              "in order, each hashing to the contract's leaf value"),
+    "C16_5": ("only no-failing-input-found at first run (source fact on the dead type assertion / the loop shape)",
+              "harness/c16 -prop fep: boundary case with 260 L1 info leaves of which only leaves 130 and 250 are injected"),
+    "C03_5": ("MISSED by C03 at first run (caught by C20: same change as C20_5): the aggsender harness hands claim EVENTS to the bridge store",
+              "C03 has a second part (props/c03_claims.py): C20's harness stream (ClaimEvent logs through the real handlers and the real "
+              "calldata search, mixed multi-claim transactions) judged by C20Cases.spec, reported under C03"),
+    "C20_5": ("caught at first run by C20; by C03 after the claim-record part was added (see C03_5)", ""),
     "C16_4": ("caught at first run by C16; MISSED by the GER-store part of C04",
               "C04 GER-store part: every query is now also asked right before each reorg"),
 }
